@@ -229,11 +229,11 @@ Lemma sweep0_pending J jn b : groundJoint J jn b -> forall jns s added any s' ad
   sweep T B F J 0 jns s added any = Ok (s', added', any') -> lev s' b <> None.
 Proof.
   intros (G1 & G2 & G3 & G4). induction jns as [|x r IH]; simpl; intros s added any s' added' any' HI HF Hin H; [destruct Hin|].
-  inv HF.
+  apply Forall_cons_iff in HF. destruct HF as [Hxl HF].
   assert (Hdone : forall s1 a1 y1, Inv J s1 -> lev s1 b <> None -> sweep T B F J 0 r s1 a1 y1 = Ok (s', added', any') -> lev s' b <> None).
   { intros s1 a1 y1 HI1 Hb Hs. destruct (lev s1 b) as [l|] eqn:El; [|congruence].
-    assert (LevMono s1 s') by (eapply sweep_gen; [apply levmono_step|exact HI1|apply levmono_refl| |exact Hs]; auto).
-    rewrite (H0 _ _ El). discriminate. }
+    assert (HM : LevMono s1 s') by (eapply sweep_gen; [apply levmono_step|exact HI1|apply levmono_refl| |exact Hs]; auto).
+    rewrite (HM _ _ El). discriminate. }
   assert (Hjm : forall s1, Inv J s1 -> jm s1 jn <> None -> lev s1 b <> None).
   { intros s1 HI1 Hj. destruct (jm s1 jn) as [i|] eqn:Ej; [|congruence].
     destruct (I_jm _ _ HI1 _ _ Ej) as (m & Hm & Hmj). destruct (I_mob _ _ HI1 _ _ Hm) as (_ & _ & M3 & M4 & M5 & _).
@@ -258,8 +258,8 @@ Proof.
     eapply Hdone; [| |exact H].
     + eapply chain_inv; eauto.
     + destruct (lev (addMob J jn s) b) as [l1|] eqn:El1; [|congruence].
-      assert (LevMono (addMob J jn s) s2) by (eapply chain_gen; [apply levmono_step|exact HI1|apply levmono_refl|exact Ec]).
-      rewrite (H0 _ _ El1). discriminate.
+      assert (HM : LevMono (addMob J jn s) s2) by (eapply chain_gen; [apply levmono_step|exact HI1|apply levmono_refl|exact Ec]).
+      rewrite (HM _ _ El1). discriminate.
   - destruct Hin as [Hin|Hin]; [congruence|].
     destruct (jm s x) eqn:Ejm.
     { eapply IH; eauto. }
@@ -285,15 +285,15 @@ Qed.
 Lemma growTree_pending J jn b s s' : groundJoint J jn b -> Inv J s -> growTree T B F J s = Ok s' -> lev s' b <> None.
 Proof.
   intros G HI H. unfold growTree in H.
-  assert (exists f, F = S f) as [f Ef] by (exists (F - 1); lia). rewrite Ef in H at 1. simpl in H.
+  assert (exists f, F = S f) as [f Ef] by (exists (F - 1); lia). rewrite Ef in H at 2. simpl in H.
   destruct (sweep T B F J 0 (seq 0 (length J)) s [] false) as [[[s1 added1] any1]| |] eqn:Es; try discriminate.
   assert (HI1 : Inv J s1) by (eapply sweep_inv; eauto using seq_lt).
   assert (Hb : lev s1 b <> None).
   { eapply sweep0_pending; [exact G|exact HI|apply seq_lt| |exact Es]. apply in_seq. destruct G; lia. }
   destruct (lev s1 b) as [l|] eqn:El; [|congruence].
   destruct any1.
-  - assert (LevMono s1 s') by (eapply levels_gen; [apply levmono_step|exact HI1|apply levmono_refl|exact H]).
-    rewrite (H0 _ _ El). discriminate.
+  - assert (HM : LevMono s1 s') by (eapply levels_gen; [apply levmono_step|exact HI1|apply levmono_refl|exact H]).
+    rewrite (HM _ _ El). discriminate.
   - inv H. congruence.
 Qed.
 
